@@ -1,6 +1,9 @@
 (* Declarative vocabulary the C01 / C03 theorems are stated with.  Definitions only. *)
 From Coq Require Import List NArith ZArith Bool QArith Qcanon.
-From Okv Require Import Base.Maps Base.Dec Model.Amount Model.Book.
+From Okv Require Import Base.Maps.
+From Okv Require Import Base.Dec.
+From Okv Require Import Model.Amount.
+From Okv Require Import Model.Book.
 Import ListNotations.
 Open Scope Qc_scope.
 
